@@ -154,6 +154,26 @@ func EncodeHighLevel(msg string, shape SymbolShapeHint, minSize, maxSize *gozxin
 }
 
 func HighLevelEncoder_lookAheadTest(msg []byte, startpos, currentMode int) int {
+	newMode := lookAheadTestIntern(msg, startpos, currentMode)
+	// X12 and EDIFACT can only hold their native characters and are next re-examined after a
+	// complete triplet / quadruplet: never enter or stay if the next chunk contains another one.
+	if newMode == HighLevelEncoder_X12_ENCODATION {
+		for i := startpos; i < startpos+3 && i < len(msg); i++ {
+			if !isNativeX12(msg[i]) {
+				return HighLevelEncoder_ASCII_ENCODATION
+			}
+		}
+	} else if newMode == HighLevelEncoder_EDIFACT_ENCODATION {
+		for i := startpos; i < startpos+4 && i < len(msg); i++ {
+			if !isNativeEDIFACT(msg[i]) {
+				return HighLevelEncoder_ASCII_ENCODATION
+			}
+		}
+	}
+	return newMode
+}
+
+func lookAheadTestIntern(msg []byte, startpos, currentMode int) int {
 	if startpos >= len(msg) {
 		return currentMode
 	}
